@@ -659,14 +659,14 @@ def crc_items(tier):
     items.append(('crc', 'short', 0, None))
     for first in range(256):
         items.append(('crc', 'short', maxlen, first))
-    for m in [b''] + [bytes([x]) for x in range(256)]:
+    for m in [b''] + [bytes([x]) for x in trailer_bytes(tier)]:
         items.append(('crc', 'trailers', 'a', m))
         items.append(('crc', 'trailers', 'b', m))
     def add(which, i):
         # slices: first flipped bit index = s (mod S)
         S = max(1, (8 * (len(long_frame(i)) + 2)) // 24)
         for sl in range(S):
-            items.append(('crc', 'flips', which, i, sl, S))
+            items.append(('crc', 'flips', which, i, sl, S, tier))
     for i in range(20):
         add('fn', i)
         add('tt2-pn53x', i)
@@ -675,6 +675,14 @@ def crc_items(tier):
     for i in range(0, 20, 2 if tier == 'thorough' else 5):
         add('tt1-pn533', i)
     return items
+
+
+def trailer_bytes(tier):
+    """One-byte messages whose 65536 trailers are all tried: every value in
+    thorough, every 8th value plus the corner values in quick."""
+    if tier == 'thorough':
+        return list(range(256))
+    return sorted(set(range(0, 256, 8)) | {0x01, 0x7F, 0x80, 0xFF})
 
 
 def long_frame(i):
@@ -795,7 +803,7 @@ def crc_device(which):
     return d
 
 
-def work_crc_flips(run, which, i, sl, S):
+def work_crc_flips(run, which, i, sl, S, tier='thorough'):
     import nfc.clf
     import nfc.clf.device as device
     msg = long_frame(i)
@@ -807,7 +815,8 @@ def work_crc_flips(run, which, i, sl, S):
             if chk(bytearray(fr)) is not True:
                 crc_fail(run, 'check_crc_%s(valid)' % kind, fr, False, True,
                          ('fv', kind, i))
-            for bits in flips(8 * len(fr), sl, S):
+            two = tier == 'thorough' or len(fr) <= 34
+            for bits in flips(8 * len(fr), sl, S, two):
                 g = flip(fr, bits)
                 if chk(bytearray(g)) is not False:
                     crc_fail(run, 'check_crc_%s(%d-bit flip)' % (kind, len(bits)),
@@ -923,11 +932,14 @@ def main(tier='quick', seed=0, part=None):
         "preserving variants / all value pairs on (DCS,postamble) and "
         "(LEN,LCS) / ACK-NACK-error interleavings; thorough: pairs over "
         "{00,01,7F,80,FF}); (crc) every message up to 2 (quick) / 3 "
-        "(thorough) bytes, every 16-bit trailer for messages of <= 1 byte, "
-        "every 1- and 2-bit flip of 20 longer frames through check_crc_* and "
-        "the drivers' own verification.  distinct = distinct (part, chip, "
-        "code, length, content / mutation index); all cases are non-trivial "
-        "(each is a different frame).")
+        "(thorough) bytes, every 16-bit trailer for the empty and 35 (quick) / "
+        "256 (thorough) one-byte messages, every 1-bit and (see bounds) 2-bit "
+        "flip of 20 longer frames through check_crc_* and the drivers' own "
+        "verification.  distinct = distinct (part, chip, "
+        "code, length, content / mutation index) for cmd/rsp/tty and one key "
+        "per sweep (message, or frame x slice) for the crc sweeps, whose "
+        "individual cases are counted in evaluations only; all cases are "
+        "non-trivial (each is a different frame).")
     run.assumptions += [
         "frame validity is what ref/hostframe.py (written from the PN53x "
         "manuals, CCID 1.1, ACR122U API, Port-100 frame format) accepts; for "
@@ -962,10 +974,13 @@ def main(tier='quick', seed=0, part=None):
               'with one position in the first 10 / last 3 bytes otherwise; '
               'values {00,01,7F,80,FF}' if tier == 'thorough' else 'none',
         crc_exhaustive_len=3 if tier == 'thorough' else 2,
-        crc_trailers='all 65536 trailers x 257 messages x {A,B}',
+        crc_trailers='all 65536 trailers x {A,B} x (empty message + %d '
+                     'one-byte messages)' % len(trailer_bytes(tier)),
         crc_flip_frames=20,
-        crc_flips='check_crc_a/b: all 1- and 2-bit flips of 20 frames of '
-                  '1..64 bytes; driver paths (tt2 pn53x, tt2 rcs380, tt1 '
+        crc_flips='check_crc_a/b: all 1-bit flips of 20 frames of 1..64 '
+                  'bytes, all 2-bit flips of ' + (
+                      'all of them' if tier == 'thorough' else
+                      'the 18 frames of <= 32 bytes') + '; driver paths (tt2 pn53x, tt2 rcs380, tt1 '
                   'pn532): all 1-bit flips of the 20 frames, all 2-bit flips '
                   'of those <= 20 bytes; tt1 pn533: 1-bit flips of every '
                   '%s frame' % ('2nd' if tier == 'thorough' else '5th'),
